@@ -99,6 +99,21 @@ Proof.
 Qed.
 Print Assumptions C12_builtin_ignores_require_flag.
 
+(* a strict file (flag true) of a custom template whose schema is not retrievable fails the run
+   and is never written - in every order of the file loop, whatever the other files of the run
+   are (e.g. files of the same template and schema URL that opted out with flag false): the
+   cache entry they leave behind cannot turn "no retrievable schema" into "nothing to validate" *)
+Theorem C12_strict_file_fails_in_any_company : forall w fs fo f,
+  world_files w = Some fs -> Permutation fs fo -> In f fs ->
+  is_remote (f_template f) = true -> schema_retrievable (w_env w) f = false -> f_require f = true ->
+  ~ In (f_path f) (snd (run KTemplateSchema (w_env w) fo)) /\
+  fst (run KTemplateSchema (w_env w) fo) = ExitErr.
+Proof.
+  intros w fs fo f Hw HP Hin Hrem Hs Hreq. eapply invalid_never_written; try eassumption.
+  exact (proj1 (no_schema (w_env w) f Hrem Hs) Hreq).
+Qed.
+Print Assumptions C12_strict_file_fails_in_any_company.
+
 (* ---- why wrapping Schema() / Template() in a retry is unsound as the code stands ------------------ *)
 (* RemoteTemplate sets its "downloaded" flag BEFORE the download.  In [run] a failed download
    aborts the run, so the flag is harmless (C12_cache_transparent).  But a second call on the same
